@@ -202,4 +202,33 @@ def run(ctx):
         vw = outs[seeds[0]][i][2][1].split('\n')
         if vw and vw[0] == '':
             ctx.violation('blank-line-from-immediate-write', "with -b -v -l warn the filtered 'Starting audit' line is printed as an empty line (a line added by raising the level)", {'op': 'cli', 'opts': '-n -b -v -l warn', 'peer': reportfam.jsonable_peer(p)})
+    # JSON mode when the audit ends before the report: stdout is still one JSON document, whatever way the handshake fails
+    kex_pkt = P.frame2(P.kexinit(['curve25519-sha256'], ['ssh-ed25519'], ['aes256-ctr'], ['hmac-sha2-256']))
+    broken = {'banner-then-close': [b'SSH-2.0-OpenSSH_8.0\r\n'], 'bad-blocksize': [b'SSH-2.0-OpenSSH_8.0\r\n', b'\x00\x00\x00\x0d\x04' + bytes(20)],
+              'truncated-kexinit': [b'SSH-2.0-OpenSSH_8.0\r\n', kex_pkt[:len(kex_pkt) // 2]], 'kexinit-cut-inside-lists': [b'SSH-2.0-OpenSSH_8.0\r\n', P.frame2(bytes([20]) + bytes(16) + b'\x00\x00\x00\x05abc')],
+              'wrong-type': [b'SSH-2.0-OpenSSH_8.0\r\n', P.frame2(bytes([21]) + bytes(11))], 'no-banner': [b'hello\r\n'],
+              'ssh1-truncated-key-message': [b'SSH-1.5-OpenSSH_3.0\r\n', P.frame1(P.pkm_payload(0x4c, 0x0c)[:40])]}
+    bcases = [(k, o) for k in broken for o in (['-j'], ['-jj', '-v'])] + [('refused', ['-j'])]
+
+    def do_broken(z, c):
+        kind, o = c
+        if kind == 'refused':
+            import socket as _s
+            t = _s.socket(); t.bind(('127.0.0.1', 0)); port = t.getsockname()[1]; t.close()
+            return z.run(o + ['--skip-rate-test', '-t', '1', '127.0.0.1:%d' % port], timeout=60)
+        srv = P.Server(P.RawServer(broken[kind], then='close'))
+        try:
+            return z.run(o + (['-1'] if kind.startswith('ssh1') else []) + ['--skip-rate-test', '-t', '1', '127.0.0.1:%d' % srv.port], timeout=60)
+        finally:
+            srv.shutdown()
+    with runner.Pool(8) as pool:
+        bres = pool.map(do_broken, bcases)
+    for (kind, o), r in zip(bcases, bres):
+        try:
+            d = canon.load_json(r['out'])
+            if not isinstance(d, dict) or 'error' not in d or any(k in d for k in ('kex', 'key', 'enc', 'mac', 'fingerprints')):
+                ctx.violation('json-on-error/shape', 'handshake failure %s with %s: the JSON document is %r' % (kind, ' '.join(o), str(d)[:200]), {'op': 'cli-broken-json', 'kind': kind, 'opts': o})
+        except canon.CanonError as e:
+            ctx.violation('json-on-error/not-one-document', 'handshake failure %s with %s: %s' % (kind, ' '.join(o), e), {'op': 'cli-broken-json', 'kind': kind, 'opts': o})
+    ctx.evaluations += len(bcases)
     ctx.cover(len(cases) * len(seeds) * 3, {('seed', s) for s in seeds}, [], 'real CLI over TCP, text/JSON/verbose-warn, repeated under several PYTHONHASHSEED values (byte identity is observed, not proved)')
